@@ -64,6 +64,9 @@ func (h *gateHandler) cur(src string) int {
 type reqResult struct {
 	status   int
 	panicked bool
+	ctype    string
+	location string
+	body     string
 }
 
 // inflightDriver starts and finishes requests on any handler at scenario granularity.
@@ -111,7 +114,7 @@ func (d *inflightDriver) start(id, src string) (admitted bool, res reqResult) {
 			}
 		}()
 		d.h.ServeHTTP(rec, req)
-		done <- reqResult{status: rec.Code}
+		done <- reqResult{status: rec.Code, ctype: rec.Header().Get("Content-Type"), location: rec.Header().Get("Location"), body: rec.Body.String()}
 	}()
 	for {
 		select {
